@@ -12,24 +12,432 @@ theorem map_fix {l : List Storage} {f : Storage → Storage} (h : ∀ s ∈ l, f
   | cons a l ih =>
     rw [List.map_cons, h a (by simp), ih (fun s hs => h s (by simp [hs]))]
 
+theorem getS_congr {w1 w2 : World} (h : w1.heap = w2.heap) (sid : Nat) : getS w1 sid = getS w2 sid := by
+  unfold getS; rw [h]
+
+theorem take_drop_full (vals old : List Int) (h : old.length = vals.length) :
+    vals.take old.length ++ old.drop vals.length = vals := by
+  rw [h, List.take_length, ← h, List.drop_length, List.append_nil]
+
+/-- what the tail produces -/
+structure CloneTail (W F : World) (sm dm : Mesh) (dst : Nat) (vals : List Int) (X : List Storage) (d : Mesh)
+    (p : Storage) : Prop where
+  heap : F.heap = W.heap ++ X
+  handles : F.handles = W.handles
+  fresh : ∀ x ∈ X, x.tracker = some dst ∧ W.next ≤ x.id
+  carried : ∀ s ∈ W.heap, s.id ∈ sm.pers → ∃ c ∈ X, c.id = W.next + s.id ∧ c.kind = s.kind ∧ c.ty = s.ty ∧
+      c.name = s.name ∧ c.shared = s.shared ∧ c.pers = s.pers ∧ c.dflt = s.dflt ∧ (¬ isPosKey s → c.vals = s.vals)
+  mesh : getM F dst = some d
+  cnt : d.cnt = dm.cnt
+  topo : d.topo = dm.topo
+  mtype : d.mtype = dm.mtype
+  posIn : p ∈ X
+  posId : p.id = d.pos
+  posVals : p.vals = vals
+  only : ∀ x ∈ X, x.id = d.pos ∨ ∃ s ∈ W.heap, s.id ∈ sm.pers ∧ x.id = W.next + s.id
+  persIds : ∀ x ∈ X, x.id = d.pos ∨ x.id ∈ d.pers
+
 /-- The common tail of copy construction and assignment: in a world `W` where the target `dst` has
     no shared property and the source's entity counts, clone the source's persistent properties
     and re-create the position property with the source's positions `vals`. -/
 theorem clone_tail {W : World} {ex : Option Nat} {src dst : Nat} {sm dm : Mesh} (hi : InvX W ex)
-    (hex : ex = none ∨ ex = some dst)
     (hsm : getM W src = some sm) (hdm : getM W dst = some dm) (hcnt : dm.cnt = sm.cnt)
     (hun : ∀ t ∈ W.heap, t.tracker = some dst → t.shared = false)
     (vals : List Int) (hlen : vals.length = sm.cnt.nV) :
-    ∃ (X : List Storage) (d p : Storage × Mesh),
-      (makePos (clonePersistent W src dst) dst vals).heap = W.heap ++ X ∧
-      (makePos (clonePersistent W src dst) dst vals).handles = W.handles ∧
-      (∀ x ∈ X, x.tracker = some dst ∧ W.next ≤ x.id) ∧
-      (∀ s ∈ W.heap, s.id ∈ sm.pers → ∃ c ∈ X, c.id = W.next + s.id ∧ c.kind = s.kind ∧ c.ty = s.ty ∧
-          c.name = s.name ∧ c.shared = s.shared ∧ c.pers = s.pers ∧ c.dflt = s.dflt ∧ (¬ isPosKey s → c.vals = s.vals)) ∧
-      getM (makePos (clonePersistent W src dst) dst vals) dst = some d.2 ∧
-      d.2.cnt = dm.cnt ∧ d.2.topo = dm.topo ∧ d.2.mtype = dm.mtype ∧
-      p.1 ∈ X ∧ p.1.id = d.2.pos ∧ p.1.vals = vals ∧
-      (∀ x ∈ X, x.id = d.2.pos ∨ ∃ s ∈ W.heap, s.id ∈ sm.pers ∧ x.id = W.next + s.id) := by
-  sorry
+    ∃ (X : List Storage) (d : Mesh) (p : Storage),
+      CloneTail W (makePos (clonePersistent W src dst) dst vals) sm dm dst vals X d p := by
+  obtain ⟨hsmm, _⟩ := getM_some hsm
+  obtain ⟨hdmm, hdid⟩ := getM_some hdm
+  have h2 := invX_clones hi src dst sm dm hsm hdmm hdid hcnt hun
+  have memC := @mem_clonesOf W ex hi sm hsmm dst
+  have hW2 := clonePersistent_eq (dst := dst) hsm
+  generalize hC : clonesOf W sm dst = C at memC hW2
+  have hheap2 : (clonePersistent W src dst).heap = W.heap ++ C := by rw [hW2]; rfl
+  have hhand2 : (clonePersistent W src dst).handles = W.handles := by rw [hW2]; rfl
+  have hnext2 : (clonePersistent W src dst).next = W.next + W.next := by rw [hW2]; rfl
+  have hd2 : getM (clonePersistent W src dst) dst = some { dm with pers := dm.pers ++ C.map (·.id) } := by
+    rw [hW2]; exact getM_modM_self _ (fun _ => rfl) ((getM_congr rfl dst).trans hdm)
+  obtain ⟨hd2m, _⟩ := getM_some hd2
+  have cloneFacts : ∀ c ∈ C, c.tracker = some dst ∧ W.next ≤ c.id ∧ c.id < W.next + W.next ∧
+      ∃ s ∈ W.heap, s.id ∈ sm.pers ∧ c.id = W.next + s.id := by
+    intro c hc
+    obtain ⟨s, hs, hp, _, _, rfl⟩ := memC.mp hc
+    have := hi.idsLt s hs
+    exact ⟨rfl, by simp, by simp; omega, s, hs, hp, rfl⟩
+  have oldLt : ∀ s ∈ W.heap, s.id < W.next := hi.idsLt
+  unfold makePos
+  simp only [hd2]
+  cases hf : find (clonePersistent W src dst) dst .V .vec3d posName with
+  | some sid =>
+    obtain ⟨_, s0, hs0, hid0, ht0, hk0, hsh0, hn0, hty0⟩ := find_some hf
+    have hs0C : s0 ∈ C := by
+      rw [hheap2] at hs0
+      rcases List.mem_append.mp hs0 with h | h
+      · have := hun s0 h ht0; simp [hsh0] at this
+      · exact h
+    have hg : getS (modM (clonePersistent W src dst) dst (fun me => { me with pos := sid })) sid = some s0 := by
+      have := getS_of_mem h2 hs0
+      rw [hid0] at this
+      exact (getS_congr (w1 := modM (clonePersistent W src dst) dst (fun me => { me with pos := sid }))
+        (w2 := clonePersistent W src dst) rfl sid).trans this
+    have hl0 : s0.vals.length = vals.length := by
+      have := h2.sizes s0 hs0 _ hd2m (by rw [ht0]; simp [hdid])
+      simp [hk0, Counts.n, hcnt] at this; omega
+    simp only [hg]
+    have hnl : ¬ s0.vals.length < vals.length := by omega
+    simp only [hnl, ↓reduceIte]
+    -- the final heap
+    let f : Storage → Storage := fun s => if s.id = sid then { s with vals := vals.take s.vals.length ++ s.vals.drop vals.length } else s
+    have hsid : W.next ≤ sid := by rw [← hid0]; exact (cloneFacts s0 hs0C).2.1
+    have hold : W.heap.map f = W.heap := map_fix (fun s hs => by
+      have := oldLt s hs
+      have : s.id ≠ sid := by omega
+      simp [f, this])
+    have fid : ∀ s, (f s).id = s.id := by intro s; simp only [f]; split <;> rfl
+    have ftr : ∀ s, (f s).tracker = s.tracker := by intro s; simp only [f]; split <;> rfl
+    refine ⟨C.map f, { ({ dm with pers := dm.pers ++ C.map (·.id) } : Mesh) with pos := sid }, f s0, ?_, ?_, ?_, ?_, ?_, rfl, rfl, rfl, ?_, ?_, ?_, ?_, ?_⟩
+    · show (clonePersistent W src dst).heap.map f = W.heap ++ C.map f
+      rw [hheap2, List.map_append, hold]
+    · exact hhand2
+    · intro x hx
+      obtain ⟨c, hc, rfl⟩ := List.mem_map.mp hx
+      rw [ftr, fid]; exact ⟨(cloneFacts c hc).1, (cloneFacts c hc).2.1⟩
+    · intro s hs hp
+      have hc : ({ s with id := W.next + s.id, tracker := some dst } : Storage) ∈ C := by
+        obtain ⟨s', hs', e1, e2, e3⟩ := hi.persEntry sm hsmm s.id hp
+        have : s' = s := hi.idInj s' hs' s hs e1
+        subst this
+        exact memC.mpr ⟨s', hs, hp, e2, e3, rfl⟩
+      refine ⟨f { s with id := W.next + s.id, tracker := some dst }, List.mem_map.mpr ⟨_, hc, rfl⟩, ?_⟩
+      simp only [f]
+      split
+      · rename_i he
+        refine ⟨rfl, rfl, rfl, rfl, rfl, rfl, rfl, ?_⟩
+        intro hnp
+        exfalso; apply hnp
+        -- the clone is the storage found under the position key
+        have hcm : ({ s with id := W.next + s.id, tracker := some dst } : Storage) ∈ (clonePersistent W src dst).heap := by
+          rw [hheap2]; exact List.mem_append_right _ hc
+        have : ({ s with id := W.next + s.id, tracker := some dst } : Storage) = s0 :=
+          h2.idInj _ hcm s0 hs0 (by simpa [hid0] using he)
+        rw [← this] at hk0 hty0 hn0
+        exact ⟨hk0, hty0, hn0⟩
+      · exact ⟨rfl, rfl, rfl, rfl, rfl, rfl, rfl, fun _ => rfl⟩
+    · exact getM_modM_self (fun me : Mesh => { me with pos := sid }) (fun _ => rfl) hd2
+    · exact List.mem_map.mpr ⟨s0, hs0C, rfl⟩
+    · rw [fid]; exact hid0
+    · simp only [f, hid0, ↓reduceIte]
+      exact take_drop_full vals s0.vals hl0
+    · intro x hx
+      obtain ⟨c, hc, rfl⟩ := List.mem_map.mp hx
+      rw [fid]; exact Or.inr (cloneFacts c hc).2.2.2
+    · intro x hx
+      obtain ⟨c, hc, rfl⟩ := List.mem_map.mp hx
+      rw [fid]
+      exact Or.inr (List.mem_append_right _ (List.mem_map.mpr ⟨c, hc, rfl⟩))
+  | none =>
+    have hn : posName ≠ "" := by decide
+    have nf := find_none hf hn
+    -- the fresh position storage
+    generalize hfp : freshPos (clonePersistent W src dst).next dst ({ dm with pers := dm.pers ++ C.map (·.id) } : Mesh).cnt.nV = fp
+    have hfpid : fp.id = W.next + W.next := by rw [← hfp, hnext2]; rfl
+    have hfptr : fp.tracker = some dst := by rw [← hfp]; rfl
+    have hfplen : fp.vals.length = vals.length := by rw [← hfp]; simp [freshPos, hcnt, hlen]
+    have hg : getS (modM (alloc (clonePersistent W src dst) fp) dst (fun me => { me with pos := (clonePersistent W src dst).next })) (clonePersistent W src dst).next = some fp := by
+      have hmem : fp ∈ (alloc (clonePersistent W src dst) fp).heap := by
+        simp only [alloc, List.mem_append, List.mem_singleton]
+        right; rw [← hfp]; rfl
+      have hinv := invX_alloc h2 fp _ hd2m (by rw [hfptr]; simp [hdid]) (by rw [← hfp]; rfl) (fun _ => by rw [← hfp]; exact hn)
+        (fun _ t ht hts htr hk hty hname => by
+          rw [← hfp] at hk hty hname
+          exact nf t ht (by rw [htr]; simp [hdid]) hk hts hname hty) (by rw [← hfp]; simp [freshPos, Counts.n])
+      have := getS_of_mem hinv hmem
+      rw [hfpid, ← hnext2] at this
+      exact (getS_congr (w1 := modM (alloc (clonePersistent W src dst) fp) dst (fun me => { me with pos := (clonePersistent W src dst).next }))
+        (w2 := alloc (clonePersistent W src dst) fp) rfl _).trans this
+    simp only [hg]
+    have hnl : ¬ fp.vals.length < vals.length := by omega
+    simp only [hnl, ↓reduceIte]
+    let f : Storage → Storage := fun s => if s.id = (clonePersistent W src dst).next then { s with vals := vals.take s.vals.length ++ s.vals.drop vals.length } else s
+    have hold : W.heap.map f = W.heap := map_fix (fun s hs => by
+      have := oldLt s hs
+      have : s.id ≠ (clonePersistent W src dst).next := by rw [hnext2]; omega
+      simp [f, this])
+    have hcl : C.map f = C := map_fix (fun c hc => by
+      have := (cloneFacts c hc).2.2.1
+      have : c.id ≠ (clonePersistent W src dst).next := by rw [hnext2]; omega
+      simp [f, this])
+    have hfp' : f { fp with id := (clonePersistent W src dst).next } = { fp with id := (clonePersistent W src dst).next, vals := vals } := by
+      simp only [f, ↓reduceIte]
+      rw [take_drop_full vals fp.vals hfplen]
+    refine ⟨C ++ [{ fp with id := (clonePersistent W src dst).next, vals := vals }],
+      { ({ dm with pers := dm.pers ++ C.map (·.id) } : Mesh) with pos := (clonePersistent W src dst).next },
+      { fp with id := (clonePersistent W src dst).next, vals := vals }, ?_, ?_, ?_, ?_, ?_, rfl, rfl, rfl, ?_, rfl, rfl, ?_, ?_⟩
+    · show ((clonePersistent W src dst).heap ++ [{ fp with id := (clonePersistent W src dst).next }]).map f = W.heap ++ (C ++ [_])
+      rw [hheap2, List.map_append, List.map_append, hold, hcl, List.map_singleton, hfp', List.append_assoc]
+    · exact hhand2
+    · intro x hx
+      rcases List.mem_append.mp hx with h | h
+      · exact ⟨(cloneFacts x h).1, (cloneFacts x h).2.1⟩
+      · simp only [List.mem_singleton] at h
+        subst h
+        exact ⟨hfptr, by simp [hnext2]⟩
+    · intro s hs hp
+      have hc : ({ s with id := W.next + s.id, tracker := some dst } : Storage) ∈ C := by
+        obtain ⟨s', hs', e1, e2, e3⟩ := hi.persEntry sm hsmm s.id hp
+        have : s' = s := hi.idInj s' hs' s hs e1
+        subst this
+        exact memC.mpr ⟨s', hs, hp, e2, e3, rfl⟩
+      exact ⟨_, List.mem_append_left _ hc, rfl, rfl, rfl, rfl, rfl, rfl, rfl, fun _ => rfl⟩
+    · exact getM_modM_self (fun me : Mesh => { me with pos := (clonePersistent W src dst).next }) (fun _ => rfl)
+        ((getM_congr (w1 := alloc (clonePersistent W src dst) fp) (w2 := clonePersistent W src dst) rfl dst).trans hd2)
+    · simp
+    · intro x hx
+      rcases List.mem_append.mp hx with h | h
+      · exact Or.inr (cloneFacts x h).2.2.2
+      · simp only [List.mem_singleton] at h
+        subst h; exact Or.inl rfl
+    · intro x hx
+      rcases List.mem_append.mp hx with h | h
+      · exact Or.inr (List.mem_append_right _ (List.mem_map.mpr ⟨x, h, rfl⟩))
+      · simp only [List.mem_singleton] at h
+        subst h; exact Or.inl rfl
+
+
+/-! ### copy construction -/
+
+/-- `Mesh dst(src)`: what the new mesh consists of -/
+structure CopySpec (w w' : World) (src dst : Nat) (sm : Mesh) (X : List Storage) (d : Mesh) (p : Storage) : Prop where
+  heap : w'.heap = w.heap ++ X                 -- nothing old is touched; `X` is everything new
+  handles : w'.handles = w.handles
+  fresh : ∀ x ∈ X, x.tracker = some dst ∧ w.next ≤ x.id
+  carried : ∀ s ∈ w.heap, s.pers = true → s.tracker = some src →
+      ∃ c ∈ X, c.id = w.next + s.id ∧ c.kind = s.kind ∧ c.ty = s.ty ∧ c.name = s.name ∧ c.shared = true ∧
+        c.pers = true ∧ c.dflt = s.dflt ∧ (¬ isPosKey s → c.vals = s.vals)
+  mesh : getM w' dst = some d
+  cnt : d.cnt = sm.cnt
+  topo : d.topo = sm.topo
+  mtype : d.mtype = sm.mtype
+  posIn : p ∈ X
+  posId : p.id = d.pos
+  posVals : ∀ q, getS w sm.pos = some q → p.vals = q.vals
+  only : ∀ x ∈ X, x.id = d.pos ∨ ∃ s ∈ w.heap, s.pers = true ∧ s.tracker = some src ∧ x.id = w.next + s.id
+
+theorem copy_spec {w w' : World} {src dst : Nat} {sm : Mesh} {r : Res} (hi : Inv w) (hsm : getM w src = some sm)
+    (e : step w (.copy src dst) = .ok (w', r)) :
+    ∃ X d p, CopySpec w w' src dst sm X d p := by
+  obtain ⟨w1, hc, rfl⟩ := step_ok e
+  have hfr := core_frame hi.x hc
+  simp only [Op.touches, Op.operated] at hfr
+  simp only [core, copyMesh, hsm] at hc
+  split at hc
+  · rename_i sm' hs hd
+    cases hs
+    cases hc
+    obtain ⟨hsmm, hsid⟩ := getM_some hsm
+    have hfree := getM_none hd
+    obtain ⟨q, hg, _, _, _, _, _, hl⟩ := pos_lookup hi.x hsmm
+    simp only [hg, Option.map_some, Option.getD_some] at hfr ⊢
+    generalize hrec : ({ id := dst, mtype := sm.mtype, cnt := sm.cnt, pers := [], pos := w.next + w.next, topo := sm.topo } : Mesh) = rec at hfr ⊢
+    have hrid : rec.id = dst := by rw [← hrec]
+    have hrp : rec.pers = [] := by rw [← hrec]
+    have hrc : rec.cnt = sm.cnt := by rw [← hrec]
+    have hfree' : ∀ me ∈ w.meshes, me.id ≠ rec.id := by rw [hrid]; exact hfree
+    have h1 := invX_newMeshRec hi.x rec hfree' hrp
+    rw [hrid] at h1
+    have hs1 : getM { w with meshes := w.meshes ++ [rec] } src = some sm := getM_append_old hsm
+    have hd1 : getM { w with meshes := w.meshes ++ [rec] } dst = some rec := by
+      rw [← hrid]; exact getM_append_new hfree'
+    have hun : ∀ t ∈ ({ w with meshes := w.meshes ++ [rec] } : World).heap, t.tracker = some dst → t.shared = false := by
+      intro t ht htr
+      obtain ⟨me, hme, e⟩ := hi.x.trackerLive t ht dst htr
+      exact (hfree me hme e).elim
+    obtain ⟨X, d, p, ct⟩ := clone_tail h1 hs1 hd1 hrc hun q.vals hl
+    -- nothing is garbage: `gc` is the identity here
+    have hgc : gc (makePos (clonePersistent { w with meshes := w.meshes ++ [rec] } src dst) dst q.vals) =
+        makePos (clonePersistent { w with meshes := w.meshes ++ [rec] } src dst) dst q.vals := by
+      apply gc_eq_self
+      intro s hs
+      rw [ct.heap] at hs
+      rcases List.mem_append.mp hs with h | h
+      · rcases (owned_iff w s.id).mp (hi.noGarbage s h) with ⟨hd', hh, e⟩ | ⟨me, hme, e⟩
+        · exact (owned_iff _ s.id).mpr (Or.inl ⟨hd', by rw [ct.handles]; exact hh, e⟩)
+        · have hne : me.id ∉ [dst] := by simpa using hfree me hme
+          have hgm := (hfr.mesh me.id hne).trans (getM_of_mem hi.x hme)
+          exact (owned_iff _ s.id).mpr (Or.inr ⟨me, (getM_some hgm).1, e⟩)
+      · refine (owned_iff _ s.id).mpr (Or.inr ⟨d, (getM_some ct.mesh).1, ?_⟩)
+        rcases ct.persIds s h with e | e
+        · exact Or.inl e.symm
+        · exact Or.inr e
+    rw [hgc]
+    refine ⟨X, d, p, ct.heap, ct.handles, ct.fresh, ?_, ct.mesh, by rw [ct.cnt, hrc], by rw [ct.topo, ← hrec], by rw [ct.mtype, ← hrec],
+      ct.posIn, ct.posId, ?_, ?_⟩
+    · intro s hs hp htr
+      have hin : s.id ∈ sm.pers := hi.x.persListed s hs sm hsmm hp (by rw [htr, hsid])
+      obtain ⟨c, hc, e1, e2, e3, e4, e5, e6, e7, e8⟩ := ct.carried s hs hin
+      exact ⟨c, hc, e1, e2, e3, e4, by rw [e5]; exact hi.x.persShared s hs hp, by rw [e6]; exact hp, e7, e8⟩
+    · intro q' hq'
+      rw [hg] at hq'; cases hq'
+      exact ct.posVals
+    · intro x hx
+      rcases ct.only x hx with e | ⟨s, hs, hp, e⟩
+      · exact Or.inl e
+      · obtain ⟨s', hs', e1, e2, e3⟩ := hi.x.persEntry sm hsmm s.id hp
+        have : s' = s := hi.x.idInj s' hs' s hs e1
+        subst this
+        exact Or.inr ⟨s', hs, e2, by rw [e3, hsid], e⟩
+  · cases hc
+
+
+/-! ### assignment -/
+
+/-- `dst = src` (distinct meshes, any kernel combination) -/
+structure AssignSpec (w w' : World) (dst src : Nat) (sm dm : Mesh) (X : List Storage) (d : Mesh) (p : Storage) : Prop where
+  handles : w'.handles = w.handles
+  newIn : ∀ x ∈ X, x ∈ w'.heap ∧ x.tracker = some dst ∧ w.next ≤ x.id
+  carried : ∀ s ∈ w.heap, s.pers = true → s.tracker = some src →
+      ∃ c ∈ X, c.id = w.next + s.id ∧ c.kind = s.kind ∧ c.ty = s.ty ∧ c.name = s.name ∧ c.shared = true ∧
+        c.pers = true ∧ c.dflt = s.dflt ∧ (¬ isPosKey s → c.vals = s.vals)
+  mesh : getM w' dst = some d
+  cnt : d.cnt = sm.cnt
+  topo : d.topo = sm.topo
+  mtype : d.mtype = dm.mtype
+  posIn : p ∈ X
+  posId : p.id = d.pos
+  posVals : ∀ q, getS w sm.pos = some q → p.vals = q.vals
+  only : ∀ x ∈ X, x.id = d.pos ∨ ∃ s ∈ w.heap, s.pers = true ∧ s.tracker = some src ∧ x.id = w.next + s.id
+  /-- whatever else is attached to the target is one of its old storages, anonymised -/
+  attached : ∀ s' ∈ w'.heap, s'.tracker = some dst →
+      s' ∈ X ∨ (s'.shared = false ∧ s'.pers = false ∧ ∃ s ∈ w.heap, s.id = s'.id ∧ s.tracker = some dst)
+  /-- handles obtained earlier from the target: still resolve to the same (attached) storage, sized
+      to the new entity counts, contents otherwise kept, no longer findable by name -/
+  oldHandles : ∀ h sid s, hget w h = some sid → getS w sid = some s → s.tracker = some dst →
+      ∃ s', hview w' h = some s' ∧ s'.id = sid ∧ s'.tracker = some dst ∧ s'.shared = false ∧ s'.pers = false ∧
+        s'.vals = resizeL s.vals (sm.cnt.n s.kind) s.dflt ∧ s'.vals.length = d.cnt.n s'.kind ∧
+        s'.name = s.name ∧ s'.kind = s.kind ∧ s'.ty = s.ty ∧ s'.dflt = s.dflt ∧
+        ∀ k ty name, find w' dst k ty name ≠ some sid
+
+theorem hget_congr {w1 w2 : World} (h : w1.handles = w2.handles) (x : Nat) : hget w1 x = hget w2 x := by
+  unfold hget; rw [h]
+
+theorem assign_spec {w w' : World} {dst src : Nat} {sm dm : Mesh} {r : Res} (hi : Inv w) (hne : dst ≠ src)
+    (hsm : getM w src = some sm) (hdm : getM w dst = some dm)
+    (e : step w (.assign dst src) = .ok (w', r)) :
+    ∃ X d p, AssignSpec w w' dst src sm dm X d p := by
+  have hi' := step_inv hi e
+  obtain ⟨w1, hc, rfl⟩ := step_ok e
+  simp only [core, assignMesh, hsm, hdm, hne, ↓reduceIte] at hc
+  cases hc
+  obtain ⟨hsmm, hsid⟩ := getM_some hsm
+  obtain ⟨q, hg, _, _, _, _, _, hl⟩ := pos_lookup hi.x hsmm
+  simp only [hg, Option.map_some, Option.getD_some] at hi' ⊢
+  have h1 := invX_clearProps hi.x dst (fun _ => true)
+  have h3 := invX_resize h1 dst sm.cnt sm.topo (fun _ => true) (by intro _ _ _ k hk; simp at hk)
+  have hne' : src ≠ dst := fun e => hne e.symm
+  -- the world before cloning
+  generalize hW : resizeTracked (modM (clearPropsCore w dst (fun _ => true)) dst
+      (fun me => { me with cnt := sm.cnt, topo := sm.topo })) dst sm.cnt (fun _ => true) = W at h3 hi' ⊢
+  let g : Storage → Storage := fun s =>
+    if s.tracker = some dst then { s with pers := false, shared := false, vals := resizeL s.vals (sm.cnt.n s.kind) s.dflt } else s
+  have hWheap : W.heap = w.heap.map g := by
+    rw [← hW]
+    simp only [resizeTracked, modM, clearPropsCore, mapHeap, List.map_map]
+    apply List.map_congr_left
+    intro s _
+    simp only [Function.comp, g]
+    by_cases h : s.tracker = some dst <;> simp [h]
+  have hWhandles : W.handles = w.handles := by rw [← hW]; rfl
+  have hWnext : W.next = w.next := by rw [← hW]; rfl
+  have hs3 : getM W src = some sm := by
+    rw [← hW, getM_resizeTracked, getM_modM_ne (fun me : Mesh => { me with cnt := sm.cnt, topo := sm.topo }) (fun _ => rfl) hne',
+      getM_clearPropsCore_ne _ hne']; exact hsm
+  obtain ⟨dm3, hd3, hd3c, hd3t, hd3m⟩ : ∃ dm3, getM W dst = some dm3 ∧ dm3.cnt = sm.cnt ∧ dm3.topo = sm.topo ∧ dm3.mtype = dm.mtype := by
+    have a := getM_clearPropsCore_self (fun _ => true) hdm
+    have b := getM_modM_self (fun me : Mesh => { me with cnt := sm.cnt, topo := sm.topo }) (fun _ => rfl) a
+    refine ⟨(fun me : Mesh => { me with cnt := sm.cnt, topo := sm.topo })
+      { dm with pers := dm.pers.filter (fun i => !(getS w i).any (fun s => (fun _ => true) s.kind)) }, ?_, rfl, rfl, rfl⟩
+    rw [← hW]; exact (getM_resizeTracked dst sm.cnt (fun _ => true) dst).trans b
+  have gfix : ∀ s, s.tracker ≠ some dst → g s = s := by intro s h; simp [g, h]
+  have gid : ∀ s, (g s).id = s.id := by intro s; simp only [g]; split <;> rfl
+  have gtr : ∀ s, (g s).tracker = s.tracker := by intro s; simp only [g]; split <;> rfl
+  have hun : ∀ t ∈ W.heap, t.tracker = some dst → t.shared = false := by
+    intro t ht htr
+    rw [hWheap] at ht
+    obtain ⟨s, _, rfl⟩ := List.mem_map.mp ht
+    rw [gtr] at htr
+    simp [g, htr]
+  obtain ⟨X, d, p, ct⟩ := clone_tail h3 hs3 hd3 hd3c hun q.vals hl
+  have xin : ∀ x ∈ X, x ∈ (gc (makePos (clonePersistent W src dst) dst q.vals)).heap := by
+    intro x hx
+    refine mem_gc.mpr ⟨by rw [ct.heap]; exact List.mem_append_right _ hx, ?_⟩
+    refine (owned_iff _ x.id).mpr (Or.inr ⟨d, (getM_some ct.mesh).1, ?_⟩)
+    rcases ct.persIds x hx with e | e
+    · exact Or.inl e.symm
+    · exact Or.inr e
+  refine ⟨X, d, p, ?_, ?_, ?_, ct.mesh, by rw [ct.cnt, hd3c], by rw [ct.topo, hd3t], by rw [ct.mtype, hd3m], ct.posIn, ct.posId, ?_, ?_, ?_, ?_⟩
+  · exact ct.handles.trans hWhandles
+  · intro x hx
+    have := ct.fresh x hx
+    rw [hWnext] at this
+    exact ⟨xin x hx, this⟩
+  · intro s hs hp htr
+    have hin : s.id ∈ sm.pers := hi.x.persListed s hs sm hsmm hp (by rw [htr, hsid])
+    have hsW : s ∈ W.heap := by
+      rw [hWheap]; exact mem_map_self hs (gfix s (by rw [htr]; simpa using hne'))
+    obtain ⟨c, hc, e1, e2, e3, e4, e5, e6, e7, e8⟩ := ct.carried s hsW hin
+    rw [hWnext] at e1
+    exact ⟨c, hc, e1, e2, e3, e4, by rw [e5]; exact hi.x.persShared s hs hp, by rw [e6]; exact hp, e7, e8⟩
+  · intro q' hq'
+    rw [hg] at hq'; cases hq'
+    exact ct.posVals
+  · intro x hx
+    rcases ct.only x hx with e | ⟨s, hs, hp, e⟩
+    · exact Or.inl e
+    · rw [hWheap] at hs
+      obtain ⟨s0, hs0, rfl⟩ := List.mem_map.mp hs
+      rw [gid] at hp e
+      rw [hWnext] at e
+      obtain ⟨s', hs', e1, e2, e3⟩ := hi.x.persEntry sm hsmm s0.id hp
+      have : s' = s0 := hi.x.idInj s' hs' s0 hs0 e1
+      subst this
+      exact Or.inr ⟨s', hs0, e2, by rw [e3, hsid], e⟩
+  · intro s' hs' htr
+    have := (mem_gc.mp hs').1
+    rw [ct.heap] at this
+    rcases List.mem_append.mp this with h | h
+    · rw [hWheap] at h
+      obtain ⟨s, hs, rfl⟩ := List.mem_map.mp h
+      rw [gtr] at htr
+      exact Or.inr ⟨by simp [g, htr], by simp [g, htr], s, hs, (gid s).symm, htr⟩
+    · exact Or.inl h
+  · intro h sid s hh hs htr
+    obtain ⟨hmem, hid⟩ := getS_some hs
+    have hgs : g s ∈ (gc (makePos (clonePersistent W src dst) dst q.vals)).heap := by
+      refine mem_gc.mpr ⟨by rw [ct.heap, hWheap]; exact List.mem_append_left _ (List.mem_map.mpr ⟨s, hmem, rfl⟩), ?_⟩
+      refine (owned_iff _ _).mpr (Or.inl ⟨(h, sid), ?_, by rw [gid]; exact hid.symm⟩)
+      show (h, sid) ∈ (makePos (clonePersistent W src dst) dst q.vals).handles
+      rw [ct.handles, hWhandles]; exact hget_some hh
+    have hview' : hview (gc (makePos (clonePersistent W src dst) dst q.vals)) h = some (g s) := by
+      unfold hview
+      have : hget (gc (makePos (clonePersistent W src dst) dst q.vals)) h = hget w h :=
+        hget_congr (by show (makePos (clonePersistent W src dst) dst q.vals).handles = w.handles; rw [ct.handles, hWhandles]) h
+      rw [this, hh]
+      simp only [Option.bind_some]
+      have := getS_of_mem hi'.x hgs
+      rw [gid, hid] at this; exact this
+    have hsz : (g s).vals.length = d.cnt.n (g s).kind := by
+      have hdm' : d ∈ (gc (makePos (clonePersistent W src dst) dst q.vals)).meshes := (getM_some ct.mesh).1
+      exact hi'.x.sizes (g s) hgs d hdm' (by rw [gtr, htr, (getM_some ct.mesh).2])
+    refine ⟨g s, hview', by rw [gid]; exact hid, by rw [gtr]; exact htr, by simp [g, htr], by simp [g, htr],
+      by simp [g, htr], hsz, by simp [g, htr], by simp [g, htr], by simp [g, htr], by simp [g, htr], ?_⟩
+    intro k ty name
+    have := private_not_found hi' hgs (by simp [g, htr]) dst k ty name
+    rw [gid, hid] at this; exact this
+
+/-- self-assignment is the identity -/
+theorem self_assign {w : World} {a : Nat} (hi : Inv w) (ha : (getM w a).isSome = true) :
+    step w (.assign a a) = .ok (w, .unit) := by
+  obtain ⟨me, hme⟩ := Option.isSome_iff_exists.mp ha
+  simp [step, core, assignMesh, hme, gc_id hi]
 
 end OVM.Registry
